@@ -148,6 +148,12 @@ def run(ctx, out, budget):
         drop = rng.choice(cands)
         if rng.random() < 0.15:
             drop = set()
+        # XMI does not prescribe an element order: views (and sofas) may come before the structures they list
+        r_ = rng.random()
+        if r_ < 0.3:
+            doc = [e for e in doc if e["ty"] == "uima.cas.View"] + [e for e in doc if e["ty"] != "uima.cas.View"]
+        elif r_ < 0.6:
+            doc = rng.sample(doc, len(doc))
         dropped_ids = {k for k, e in dmp["fs"].items() if e["type"] in drop}
         # side condition: no remaining structure references a dropped one (strings hold ids of the dump)
         dangling = any(str(r) in dropped_ids for k, e in dmp["fs"].items() if k not in dropped_ids for r in refs_of(e))
